@@ -1252,6 +1252,19 @@ class Reaction(Object):
                     )
                 self._model.metabolites.get_by_id(metabolite)
 
+        # Metabolite objects the model does not know yet join it first: if the model or
+        # its solver refuses one, the reaction has not been touched.
+        if self._model is not None:
+            self._model.add_metabolites(
+                [
+                    metabolite.copy() if metabolite.model is not None else metabolite
+                    for metabolite in metabolites_to_add
+                    if isinstance(metabolite, Metabolite)
+                    and metabolite.id not in _id_to_metabolites
+                    and metabolite.id not in self._model.metabolites
+                ]
+            )
+
         for metabolite, coefficient in metabolites_to_add.items():
             # Make sure metabolites being added belong to the same model, or
             # else copy them.
